@@ -37,7 +37,10 @@ def parseScope (s : String) : Scope :=
   if s.isEmpty then [] else
   (s.splitOn ";").filterMap fun kv =>
     match kv.splitOn ":" with
-    | [k, v] => match v.toInt? with
+    | [k, v] =>
+      -- (`3n` = the integer 3 as a numpy integer rather than a Python int: the same size)
+      let v := if v.endsWith "n" then (v.dropEnd 1).toString else v
+      match v.toInt? with
       | some i => some (k.toList, i)
       | none => none
     | _ => none
@@ -235,6 +238,7 @@ def specToHint (s : String) : Except String Hint :=
     | some "7" => .ok (.union [h, .none])
     | some "8" => .ok (.union [.plain, h])           -- `Union[int, T]`
     | some "9" => .ok (.union [.none, .plain, h])    -- `Union[None, float, T]`
+    | some "A" => .ok h                               -- `Annotated[base, ann, 'unit: px']`: further metadata changes nothing
     | _ => .ok h
 
 def hintOf (mode specs : String) : Except String Hint := do
@@ -261,6 +265,10 @@ def parseCallItems (items : List String) : CallSpec :=
     | ["AL"] => cs     -- identical annotation specs share ONE annotation object (a type alias): annotations are values in the model
     | ["VA", _, _] => cs
     | ["VK", _, _] => cs
+    | ["PE", name, mode, specs, val] =>
+      match hintOf mode specs with
+      | .ok h => { cs with params := cs.params ++ [(name.toList, h, parseValueU val)] }
+      | .error e => { cs with err := cs.err <|> some e }
     | ["PD", name, mode, specs, val] =>
       match hintOf mode specs with
       | .ok h => { cs with params := cs.params ++ [(name.toList, h, parseValueU val)] }
